@@ -52,7 +52,10 @@ def same_bytes_probe(ctx_, work, rng, nb):
         r = l2data.build_and_run(ctx_["idlc"], os.path.join(work, "wiredata%d" % b), ms, chain=(b % 2 == 1), opt=op)
         idl = l2data.render_idl(ms, b % 2 == 1, op)
         if r.get("stage") != "run" or r.get("rc") != 0:
-            fails.append({"property": ctx_["prop"], "idl": idl, "what": "the nine-pairing data program does not build or aborts (%s): %s" % (r.get("stage"), (r.get("err") or "")[-600:])})
+            f_ = {"property": ctx_["prop"], "idl": idl, "what": "the nine-pairing data program does not build or aborts (%s): %s" % (r.get("stage"), (r.get("err") or "")[-600:])}
+            if re.search(r"misaligned address 0x[0-9a-f]+ for type 'struct b[io]'", r.get("err") or ""):
+                f_["known_class"] = "K_bundle_alignment"
+            fails.append(f_)
             continue
         nlines += r["out"].count("\nwire ")
         for pairing, line, refline in l2data.compare(r["out"], tags=("wire ", "wired "))[:6]:
